@@ -89,8 +89,8 @@ fn writer(tier: &str) -> Vec<String> {
         v.push(format!("qflush:cap=16:qcap=1:prog={}:P=3", prog));
         v.push(format!("qflush:cap=16:h=1:prog={}:P=3", prog));
         // a bounded spy channel behind the buffered sink: a flush that is refused must say so
-        v.push(format!("qflush:cap=6:sq=1:h=1:prog={}:P=3", prog));
-        v.push(format!("qflush:cap=6:sq=1:prog={}WF:P=3", prog));
+        v.push(format!("qflush:cap=16:sq=1:h=1:prog={}:P=3", prog));
+        v.push(format!("qflush:cap=16:sq=1:prog={}WF:P=3", prog));
         v.push(format!("qflush:cap=16:h=1:qcap=2:prog={}:P=3", prog));
     }
     // unmerged tree: split on the first operation for parallelism
